@@ -2959,8 +2959,9 @@ class KmipEngine(object):
         supported_versions = list()
 
         if len(payload.protocol_versions) > 0:
-            for version in payload.protocol_versions:
-                if version in self._protocol_versions:
+            # Answer in the server's own order, i.e., newest version first.
+            for version in self._protocol_versions:
+                if version in payload.protocol_versions:
                     supported_versions.append(version)
         else:
             supported_versions = self._protocol_versions
